@@ -53,49 +53,8 @@ Lemma req_K_thm c0 ds p : rq_canon c0 -> Forall (fun d => hexdigit d = true) ds 
 Proof. intros Hc Hd Hp. exact (req_cmd_thm c0 (CmdK ds) p Hc Hd Hp). Qed.
 End Cmds.
 
-(* ------------------------------------------------------------------ encoder: instantiate the probe *)
-Lemma resp_min_size_le1 : resp_min_size <= 1.
-Proof. unfold resp_min_size, min_size. destruct resp_fixed; lia. Qed.
-
-(* for whatever the regenerated encoder supports: k >= resp_min_size (1 on the pinned tree, 0 with C20-F1 repaired) *)
-Lemma resp_stream_gen wvalid wv : 1 <= wvalid -> 7 <= wv -> forall c0 value k st r0 env,
-  rs_idle c0 -> resp_min_size <= k -> on st = true -> (Z.to_nat (2 * k + 4) <= ready_count env)%nat ->
-  let first := {| i_vin := value; i_size := k; i_start := st; i_ready := r0 |} in
-  exists pre post, env = pre ++ post /\
-    rs_xfers wvalid wv c0 (first :: pre) = response value (Z.to_nat k) /\
-    rs_idle (rs_iter wvalid wv c0 (first :: pre)).
-Proof. intros Hv Hw. exact (Resp.resp_stream_thm wvalid wv Hv Hw resp_fixed (CMDResponse_clock_ref wvalid wv)). Qed.
-
-Lemma resp_prefix_gen wvalid wv : 1 <= wvalid -> 7 <= wv -> forall c0 value k st r0 env,
-  rs_idle c0 -> resp_min_size <= k -> on st = true -> Forall (fun i => i_start i = 0) env ->
-  let first := {| i_vin := value; i_size := k; i_start := st; i_ready := r0 |} in
-  exists rest, rs_xfers wvalid wv c0 (first :: env) ++ rest = response value (Z.to_nat k).
-Proof. intros Hv Hw. exact (Resp.resp_prefix_thm wvalid wv Hv Hw resp_fixed (CMDResponse_clock_ref wvalid wv)). Qed.
-
-Lemma resp_idle_gen wvalid wv c i : rs_idle c -> i_start i = 0 ->
-  rs_step wvalid wv c i = c /\ xfer (rs_o c) (i_ready i) = [].
-Proof. exact (Resp.resp_idle_thm wvalid wv resp_fixed (CMDResponse_clock_ref wvalid wv) c i). Qed.
-
+(* ------------------------------------------------------------------ encoder *)
 Definition in0 (r : Z) : rs_in := {| i_vin := 999; i_size := 77; i_start := 0; i_ready := r |}.
-
-(* C20-F1: repaired in /repo, switched by fixes/C20_switch.py *)
-(* the repaired encoder handles size = 0: the probe evaluates to 0 and the theorems hold for every k >= 0 *)
-Lemma resp_min_size_0 : resp_min_size = 0.
-Proof. vm_compute. reflexivity. Qed.
-
-Lemma resp_stream_k : forall wvalid wv, 1 <= wvalid -> 7 <= wv -> forall c0 value k st r0 env,
-  rs_idle c0 -> 0 <= k -> on st = true -> (Z.to_nat (2 * k + 4) <= ready_count env)%nat ->
-  let first := {| i_vin := value; i_size := k; i_start := st; i_ready := r0 |} in
-  exists pre post, env = pre ++ post /\
-    rs_xfers wvalid wv c0 (first :: pre) = response value (Z.to_nat k) /\
-    rs_idle (rs_iter wvalid wv c0 (first :: pre)).
-Proof. intros wvalid wv Hv Hw c0 value k st r0 env Hc Hk. apply resp_stream_gen; auto; rewrite resp_min_size_0; lia. Qed.
-
-Lemma resp_prefix_k : forall wvalid wv, 1 <= wvalid -> 7 <= wv -> forall c0 value k st r0 env,
-  rs_idle c0 -> 0 <= k -> on st = true -> Forall (fun i => i_start i = 0) env ->
-  let first := {| i_vin := value; i_size := k; i_start := st; i_ready := r0 |} in
-  exists rest, rs_xfers wvalid wv c0 (first :: env) ++ rest = response value (Z.to_nat k).
-Proof. intros wvalid wv Hv Hw c0 value k st r0 env Hc Hk. apply resp_prefix_gen; auto; rewrite resp_min_size_0; lia. Qed.
 
 (* size = 0: exactly "=!" *)
 Lemma resp_size0_ok : rs_xfers 1 8 rs_reset ({| i_vin := 5; i_size := 0; i_start := 1; i_ready := 1 |} :: map (fun _ => in0 1) (seq 0 8)) = response 5 0 /\
